@@ -101,6 +101,7 @@ static Step make_step(const std::string &op, Rng &r, bool utils_keys = false) {
     if (op == "twinprint") return mk(op, {R(r), R(r)});
     if (op == "pop") return mk(op, {R(r), R(r), R(r), R(r), R(r), R(r)});
     if (op == "pcorrupt") return mk(op, {R(r), R(r), R(r)});
+    if (op == "patch_apply") return mk(op, {R(r)});
     if (op == "patch_gen" || op == "merge_apply" || op == "merge_gen") return mk(op, {R(r), R(r)});
     if (op == "utils_ci") return mk(op, {R(r), R(r), R(r)});
     if (op == "ptr_find") return mk(op, {R(r), R(r)});
